@@ -3,7 +3,11 @@
 package proxy
 
 import (
+	"net/http"
+	"net/url"
+
 	"github.com/andydunstall/piko/pkg/log"
+	"github.com/andydunstall/piko/server/upstream"
 	v "github.com/andydunstall/piko/zzverif"
 	"github.com/andydunstall/piko/zzverif/vnet"
 )
@@ -24,4 +28,46 @@ func Harness_C07_forward_server() {
 	p.forward(up, down)
 
 	vnet.CheckPump("C07/forward", up, down, fromUp, fromDown)
+}
+
+// Harness_C07_tcp_setup: setting a tunnel up on the TCP route. Whatever stops
+// the set-up - no upstream, the upstream gone or unreachable, the client's
+// request not being a WebSocket upgrade after the upstream leg was already
+// opened - no leg stays open: every upstream stream that was opened is
+// closed again, and the client gets 502 when no upstream could be reached.
+func Harness_C07_tcp_setup() {
+	vResetWorld()
+	v.Tag("hop")
+	n := vNewNodeW(0, 0)
+	hasUpstream := v.Choose("upstream", 2) == 1
+	outcome := 0
+	if hasUpstream {
+		sess := n.addUpstream("e0")
+		outcome = v.Choose("dial-outcome", 3)
+		upstream.VerifOpenOutcome[sess] = outcome
+	}
+	h := http.Header{}
+	if v.Choose("upgrade-headers", 2) == 1 {
+		h.Set("Upgrade", "websocket")
+		h.Set("Connection", "Upgrade")
+	}
+	r := &http.Request{Method: "GET", URL: &url.URL{Path: "/_piko/v1/tcp/e0"}, Host: "piko.example.com", Header: h}
+	// (the upgrade itself is stubbed to fail: the set-up stops after the dial)
+	n.vDispatch(r)
+	status := vStatuses[len(vStatuses)-1]
+	opened := len(upstream.VerifOpened)
+	v.Assert("C07/setup/every-opened-leg-released", upstream.VerifStreamCloses == opened)
+	if !hasUpstream {
+		v.Assert("C07/setup/no-upstream-502", status == http.StatusBadGateway && opened == 0)
+		v.Cover("no-upstream")
+		return
+	}
+	switch outcome {
+	case 0:
+		v.Assert("C07/setup/leg-opened-then-released", opened == 1 && upstream.VerifStreamCloses == 1)
+		v.Cover("upgrade-failed-after-dial")
+	default:
+		v.Assert("C07/setup/unreachable-upstream-502", status == http.StatusBadGateway && opened == 0)
+		v.Cover("upstream-unreachable")
+	}
 }
